@@ -98,7 +98,7 @@ def build_tree(r, root):
             k = r.choice([1, 1, 2, 3])
             arg = "(" * k + lit + ")" * k
         # what separates `import` from its argument is layout, not part of the call
-        sep = r.choice([" ", " ", " ", "\n    ", "\t", " /* c */ ", "  "]) if not arg.startswith("(") else r.choice([" ", " ", "", "\n    "])
+        sep = r.choice([" ", " ", " ", "\n    ", "\t", " /* c */ ", "  ", "\n    # pinned\n    ", "\n    /* c */\n    ", " # why\n    ", "\n\n    # a\n    # b\n    "]) if not arg.startswith("(") else r.choice([" ", " ", "", "\n    "])
         contents[f] = "{\n  v = import%s%s;\n  other = %d;\n}\n" % (sep, arg, 100 + i)
     # decoys: same basenames in other directories (incl. future cwds), distinct integers
     ndecoys = 0
